@@ -833,3 +833,425 @@ Print Assumptions run_root_multi_target_hypotheses.
 Theorem core_static_conditions_imply_initial_ones : forall c, static_okb c = true -> static_ib c = true.
 Proof. exact static_okb_static_ib. Qed.
 Print Assumptions core_static_conditions_imply_initial_ones.
+
+(* ===================== work package `tt`: the static conditions of C01 from the document ===================== *)
+From V Require Import EngineEquivSelect Serialize RunConformStep RunConformLoop RunConformInitialStep RunConformWitness
+     RunConformInitialWitness RunConformInitialSelWitness.
+From V Require Import FlattenStaticTrans FlattenStaticTree FlattenStaticC01 FlattenStaticC01Lemmas FlattenStaticC01Main.
+
+(* WHAT: strengthens transitions_in_postfix_order: for EVERY document (no side condition) the table
+   LargeMicroStep::init builds lists for every state exactly the transitions it is the source of, ascending, and
+   numbers the transitions in post-fix order of their source elements: for ti < tj the source of ti is the source
+   of tj, lies entirely before it in document order, or is one of its descendants (EngineEquivSelect.trans_tableb). *)
+Theorem transition_table_of_every_document : forall late t, trans_tableb (flatten late t) = true.
+Proof. exact flatten_trans_table. Qed.
+Print Assumptions transition_table_of_every_document.
+
+(* WHAT: static_ib, the table-level static hypothesis of initial_step_conforms_initial, large_step_conforms_initial,
+   run_conforms_initial and run_conforms_prefix_initial, holds for the tables of EVERY document that passes the
+   boolean DOCUMENT predicate c01i_treeb (FlattenStaticC01.v), both bindings:
+     hist_treeb t (FlattenStaticTree.v: root <scxml> with a child; schema nesting, <initial> below <state> only;
+       unique numbers; non-empty, existing, legal target and initial-attribute sets, the latter of descendants;
+       <initial> with exactly one transition without cond/event to proper states below the parent) and
+     ct_no_histb (no <history> element: C01's run theorems do not cover history) and
+     ct_par_nonemptyb, ct_targets_antichainb, ct_done_okb, ct_root_silentb, ct_root_unmentionedb (the side
+       conditions of the core theorems, FlattenWfSide.v, unchanged) and
+     ct_initattr_antichainb (no state named by an `initial` attribute lies below another one named by it) and
+     ct_namedb (every <raise> names an event) and ct_root_onexit_emptyb (<scxml> has no onexit content).
+   The table-level conditions cpl_okb, targets_properb, root_plainb need no clause of their own: they follow from
+   hist_treeb and ct_no_histb.  This extends c01_side_conditions (core documents only) to documents with <initial>
+   elements and deep / multiple initial attributes. *)
+Theorem document_static_conditions_initial : forall late t, c01i_treeb t = true -> static_ib (flatten late t) = true.
+Proof. exact document_static_initial_lemma. Qed.
+Print Assumptions document_static_conditions_initial.
+
+(* WHAT: run_conforms_initial with the document predicate: for every document of c01i_treeb, both bindings, every
+   list of external events and every number of steps for which the dynamic run guard holds and the run is complete,
+   the engine's projected trace and final datamodel are those of Appendix D (for every larger fuel of the
+   specification).  The only hypotheses on the flat chart left are the dynamic ones (run_guardb, run_completeb).
+   NOT COVERED: <history>, invocations, delayed sends; documents outside c01i_treeb. *)
+Theorem document_run_conforms_initial : forall late t0,
+  let c := flatten late t0 in let r := fs_sid (st c 0) in
+  c01i_treeb t0 = true -> forall evs fuel, run_guardb c evs fuel = true -> run_completeb c evs fuel = true ->
+  forall fuel', fuel <= fuel' ->
+    spec_view r (fst (run_large lg_fixed ex_fixed late t0 evs fuel)) = spec_view r (fst (run_spec late t0 evs fuel')) /\
+    snd (run_large lg_fixed ex_fixed late t0 evs fuel) = snd (run_spec late t0 evs fuel').
+Proof. exact document_run_conforms_initial_lemma. Qed.
+Print Assumptions document_run_conforms_initial.
+
+(* ... every bound on the number of calls of step(), and one call of step() with all its branches *)
+Theorem document_run_conforms_prefix_initial : forall late t0,
+  let c := flatten late t0 in let r := fs_sid (st c 0) in
+  c01i_treeb t0 = true -> forall evs fuel, run_guardb c evs (S fuel) = true ->
+  exists k, k <= fuel /\
+    let res := run_loop c lstate (large_step lg_fixed ex_fixed c) l_cfg (S fuel) l_pristine x_init evs in
+    let sp := Spec.spec_loop c k (fst (spec_init c x_init)) (snd (spec_init c x_init)) evs in
+    let xs' := if l_fin (fst res) then Spec.exit_interpreter c (fst sp) (snd sp) else snd sp in
+    corr c (fst res) (fst sp) /\ x_store (snd res) = x_store xs' /\
+    spec_view r (rev (x_out (snd res))) = spec_view r (rev (x_out xs')).
+Proof. exact document_run_conforms_prefix_initial_lemma. Qed.
+Print Assumptions document_run_conforms_prefix_initial.
+
+Theorem document_large_step_conforms_initial : forall late t0,
+  let c := flatten late t0 in
+  c01i_treeb t0 = true -> forall l xl s xs,
+  rsimH c l xl s xs -> step_guardb c l xl = true ->
+  let rl := large_step lg_fixed ex_fixed c l xl in
+  let q := spec_step c l s xs in
+  rsimH c (fst (fst rl)) (loop_toks c (fst (fst rl)) (snd rl) (snd (fst rl))) (fst q) (snd q).
+Proof. exact document_large_step_conforms_initial_lemma. Qed.
+Print Assumptions document_large_step_conforms_initial.
+
+(* WHAT: the same for the history-free core: c01_treeb (FlattenWfSide.v) together with ct_namedb and
+   ct_root_onexit_emptyb gives ALL of static_okb (c01_side_conditions left chart_named and root_onexit_emptyb as
+   per-chart booleans), hence run_conforms at document level. *)
+Theorem document_static_conditions_core : forall late t, c01_full_treeb t = true -> static_okb (flatten late t) = true.
+Proof. exact c01_tree_static. Qed.
+Print Assumptions document_static_conditions_core.
+
+Theorem document_run_conforms : forall late t0,
+  let c := flatten late t0 in let r := fs_sid (st c 0) in
+  c01_full_treeb t0 = true -> forall evs fuel, run_guardb c evs fuel = true -> run_completeb c evs fuel = true ->
+  forall fuel', fuel <= fuel' ->
+    spec_view r (fst (run_large lg_fixed ex_fixed late t0 evs fuel)) = spec_view r (fst (run_spec late t0 evs fuel')) /\
+    snd (run_large lg_fixed ex_fixed late t0 evs fuel) = snd (run_spec late t0 evs fuel').
+Proof. exact document_run_conforms_lemma. Qed.
+Print Assumptions document_run_conforms.
+
+(* non-vacuity: the example documents of run_conforms_initial (iw_tree: deep two-state initial attribute into a
+   <parallel>, <initial> elements with content, In() conditions, a top-level <final>; iw_root_multi; isel_tree) pass
+   c01i_treeb, iw_tree is outside the core and its run on f, e meets the dynamic hypotheses; rw_tree passes
+   c01_full_treeb *)
+Theorem document_initial_hypotheses_satisfiable :
+  c01i_treeb iw_tree = true /\ c01i_treeb iw_root_multi = true /\ c01i_treeb isel_tree = true /\
+  wf_coreb (flatten false iw_tree) = false /\
+  run_guardb (flatten false iw_tree) iw_evs 40 = true /\ run_completeb (flatten false iw_tree) iw_evs 40 = true.
+Proof. exact document_initial_hypotheses_hold. Qed.
+Print Assumptions document_initial_hypotheses_satisfiable.
+Theorem document_core_hypotheses_satisfiable : c01_full_treeb rw_tree = true.
+Proof. exact document_core_hypotheses_hold. Qed.
+Print Assumptions document_core_hypotheses_satisfiable.
+
+(* the one clause of c01i_treeb that is neither a clause of hist_treeb nor a side condition of the core theorems
+   cannot be dropped: initial="s2 s5" with s5 below s2 passes every other clause, the run guard and completeness
+   hold, and the views of the engine and of Appendix D differ (witnesses for the other clauses: Properties_C03.v
+   hist_tree_clauses_needed for hist_treeb, the *_refuted theorems above for the core side conditions) *)
+Theorem document_initattr_antichain_clause_needed_refuted :
+  c01i_clauses w_initattr_nested = [true; true; true; true; true; true; false; true; true; true] /\
+  run_guardb (flatten false w_initattr_nested) [] 10 = true /\ run_completeb (flatten false w_initattr_nested) [] 10 = true /\
+  views_differ false w_initattr_nested [] 10.
+Proof. exact initattr_antichain_clause_needed_refuted. Qed.
+Print Assumptions document_initattr_antichain_clause_needed_refuted.
+
+From V Require Import EngineEquivDone RunConformHistRel RunConformHistSpec RunConformHistEntry RunConformHistDom RunConformHistWf RunConformHistDeep
+  RunConformHistFlat RunConformHistStep RunConformHistRun RunConformHistWitness RunConformHistMain.
+
+(* ==== documents with <history> (wf_histb: LegalHistWf.v; histories with different parents record disjoint sets) ====
+
+   The theorems for wf_initb documents above, for documents that also have shallow and deep <history> elements, transitions
+   that target them and default transitions with executable content.  "_partial": C01 is still not proved for ALL charts --
+   the recorded deviation classes stay outside (C01-K4: overlapping histories, excluded by wf_histb; C01-K5: hist_target_localb).
+
+   Corresponding states now have RELATED HISTORIES.  Appendix D keeps one value per history state (Spec.s_hv), LargeMicroStep
+   ONE set of states for all histories (Large.l_hist).  RunConformHistRel.hv_rel hist h: for every history state H, the part
+   of the set that H owns -- l_hist /\ completion(H), LegalHistEntry.Rh -- is empty iff H has no value, and otherwise the value
+   of H is that part (shallow H: the recorded children of H's parent) resp. its atomic members (deep H: Appendix D records
+   the active atomic descendants, the engine ALL active proper descendants).  HistOK (LegalHistEntry.v): what H owns is
+   empty or a fragment below H's parent with one child per compound state; HistDown (RunConformHistRel.v): what a deep
+   history owns is closed downwards like a configuration (so it can be rebuilt from its atomic members).
+
+   Static conditions of the microstep theorems (RunConformHistFlat.micro_static_hb, a boolean on the flat chart):
+   wf_histb, root_compoundb, par_nonemptyb, targets_antichainb, done_okb, root_silentb, cpl_okb, cpl_antib (as for wf_initb
+   documents) and
+     targets_noinitb      no transition targets an <initial> element (replaces targets_properb: a <history> may be targeted)
+     hist_target_localb   no transition targets a DEEP history whose parent properly encloses the transition's source
+                          (known finding C01-K5; for a shallow history the two transition domains coincide)
+     hist_targets_nodupb  no transition names the same <history> twice in its target list
+     leaf_okb             atomic and <final> states have no child states (EngineEquivDone.v; the SCXML schema)
+   Static conditions of the run-level theorems (RunConformHistStep.static_hb): micro_static_hb, root_unmentionedb,
+   chart_named, root_onexit_emptyb, root_plainb (as for wf_initb documents).  The dynamic guards (step_guardb, run_guardb,
+   run_completeb, unrelated_enabledb, conds_pureb, descs_okb) are those of the core theorems, unchanged.
+   Witnesses that a condition cannot be dropped: below, for all new ones except leaf_okb (used by the proof -- the atomic
+   states a deep history records must not lie below one another; no deviation is known, see run_final_with_child_agrees).
+   Not covered: everything the theorems for wf_initb documents do not cover either. *)
+
+(* LargeMicroStep::init gives a deep history the completion "every proper state below the history's parent" -- for EVERY
+   document (a premise of the recording theorem, discharged here) *)
+Theorem deep_history_completion_is_full : forall late t, WFH (flatten late t) -> DeepFull (flatten late t).
+Proof. exact flatten_deep_full. Qed.
+Print Assumptions deep_history_completion_is_full.
+
+(* (0) Appendix D's exitStates records history exactly as RunConformHistRel.record_hv says (for all states to exit, before any
+   onexit handler runs), and then exits the states *)
+Theorem exit_states_records_history : forall c ts s x,
+  Spec.exit_states c ts s x =
+  (let to_exit := rev (Spec.sort_doc (Spec.compute_exit_set c (Spec.s_cfg s) (Spec.s_hv s) (map (tr c) ts))) in
+   let r := fold_left (spec_exit_one c) to_exit (Spec.s_cfg s, x) in
+   ({| Spec.s_cfg := fst r; Spec.s_hv := record_hv c (Spec.s_cfg s) to_exit (Spec.s_hv s);
+       Spec.s_running := Spec.s_running s; Spec.s_entered := Spec.s_entered s |}, snd r)).
+Proof. exact exit_states_hv. Qed.
+Print Assumptions exit_states_records_history.
+
+(* (1) Recording keeps the histories related.  For every wf_histb document, every legal configuration (engine: 0 :: cfgS,
+   Appendix D: cfgS), every set X of active states that is exited (L: the same states in any order -- Appendix D's list
+   of states to exit), related histories stay related: REMEMBER_HISTORY of LargeMicroStep (for every history whose parent
+   is exited, set the bits of its completion to "active now") against Appendix D's loop over the states to exit (deep:
+   the active atomic descendants; shallow: the active children). *)
+Theorem history_recording_conforms : forall late t0 cfgS X L hist h,
+  let c := flatten late t0 in
+  wf_histb c = true -> legal_configb c (0 :: cfgS) = true ->
+  (forall x, In x X -> In x (0 :: cfgS)) -> (forall x, In x L <-> In x X) ->
+  HistOK c hist -> HistDown c hist -> hv_rel c hist h ->
+  HistOK c (remember_history c (0 :: cfgS) X hist) /\ HistDown c (remember_history c (0 :: cfgS) X hist) /\
+  hv_rel c (remember_history c (0 :: cfgS) X hist) (record_hv c cfgS L h).
+Proof. exact history_recording_conforms_main. Qed.
+Print Assumptions history_recording_conforms.
+
+(* what the relation gives for a history H (parent q) that has a value v: v is not empty, lies below q (children of q
+   for a shallow H), names one child per compound state, no member below another, and the engine's part of H is
+   exactly the states on the paths from q to the members of v *)
+Theorem related_history_values : forall c hist h, WFH c -> HistOK c hist -> HistDown c hist -> hv_rel c hist h ->
+  (forall s, s < nstates c -> fs_type (st c s) = FParallel -> fs_children (st c s) <> []) ->
+  (forall x k, Spec.is_atomic_state c x = true -> fs_parent (st c k) <> Some x) ->
+  forall H q v, histS c H = true -> fs_parent (st c H) = Some q -> Spec.hv_get h H = Some v ->
+  v <> [] /\
+  (forall x, In x v -> LegalAbstract.Anc (fun i => fs_parent (st c i)) q x /\ pseudoS c x = false /\ (deepS c H = false -> fs_parent (st c x) = Some q)) /\
+  one_child_per_compound c v /\
+  (forall g1 g2, In g1 v -> In g2 v -> ~ LegalAbstract.Anc (fun i => fs_parent (st c i)) g1 g2) /\
+  (forall x, Rh c hist H x <-> IC c q v x).
+Proof. intros c hist h W HH HD HR HP HL H q v. exact (hv_value_facts c W hist h HH HD HR HP HL H q v). Qed.
+Print Assumptions related_history_values.
+
+(* (1') The transition domain and the exit set with <history> targets.  For every document, every legal configuration,
+   related histories and every transition t none of whose targets is a deep history with a parent that properly
+   encloses t's source (RunConformHistDom.TLocal; boolean for all transitions: hist_target_localb), the domain Appendix D
+   computes from the EFFECTIVE targets is the domain the engine computes from the targets as written, and the exit sets
+   agree.  (Without TLocal: domain_agrees_history_refuted / exit_set_agrees_history_refuted above.) *)
+Theorem domain_agrees_history_partial : forall late t0 cfg hist h t,
+  let c := flatten late t0 in
+  WFH c -> TgAnti c ->
+  (forall s, s < nstates c -> fs_type (st c s) = FParallel -> fs_children (st c s) <> []) ->
+  (forall x k, Spec.is_atomic_state c x = true -> fs_parent (st c k) <> Some x) ->
+  LegalHistStep.LegalH c (fun x => In x cfg) -> (forall x, In x cfg -> x < nstates c) ->
+  HistOK c hist -> HistDown c hist -> hv_rel c hist h -> TLocal c t ->
+  Large.domain c t = Spec.transition_domain c h t /\
+  forall cfg', (forall s, In s cfg' -> s < nstates c) ->
+    forall s, In s (Large.exit_states_of lg_fixed c cfg' t) <-> In s (Spec.compute_exit_set c cfg' h [t]).
+Proof.
+  intros late t0 cfg hist h t c W HA HP HL Hleg Hb HH HD HR Hloc. split.
+  - exact (domain_agrees_hist late t0 W HA HP HL cfg Hleg Hb hist h HH HD HR t Hloc).
+  - exact (exit_set_agrees_hist late t0 W HA HP HL cfg Hleg Hb hist h HH HD HR t Hloc).
+Qed.
+Print Assumptions domain_agrees_history_partial.
+
+(* (2) The entry set.  For every document satisfying micro_static_hb, every legal configuration cfg, related histories
+   (hist: the engine's set, h: Appendix D's values -- both AFTER the recording of the microstep) and every list sel of
+   pairwise conflict-free transitions with active sources, with e = computeEntrySet and (es, ts) = ESTABLISH_ENTRYSET:
+   - the states Appendix D enters are exactly the PROPER states of the engine's entry set (which also holds the targeted
+     <history> elements and <initial> pseudo-states) that do not survive the exit -- in both cases of a history target:
+     a recorded value is restored (Appendix D: the value and its ancestors up to the history's parent; engine: all
+     recorded states), no value: the targets of the default transition are entered;
+   - <initial>: as for wf_initb documents (transition in ts iff the parent is in statesForDefaultEntry and the element is
+     its completion);
+   - <history>: a transition of a history element H is in ts iff H is a target of a selected transition, H has no value
+     and it is H's first transition; Appendix D's defaultHistoryContent holds exactly these (parent of H, transition)
+     pairs -- the content Appendix D runs for a state is the content of the default transitions the engine runs for it;
+   - a state that is entered by default has no targeted history child (at most one child of a state fires). *)
+Theorem entry_set_conforms_history_partial : forall late t0 cfg sel h hist,
+  let c := flatten late t0 in
+  micro_static_hb c = true -> legal_configb c cfg = true ->
+  HistOK c hist -> HistDown c hist -> hv_rel c hist h ->
+  (forall ti, In ti sel -> In (ft_source (tr c ti)) cfg) -> pairwise_ok lg_fixed c sel ->
+  let e := Spec.compute_entry_set c h sel in
+  let r := entry_set lg_fixed c cfg (sel_exitset c cfg sel) hist (sel_targets c sel) sel in
+  (forall x, In x (Spec.e_enter e) <-> In x (fst r) /\ pseudoS c x = false /\ ~ (In x cfg /\ ~ In x (sel_exitset c cfg sel))) /\
+  (forall i x ti, In i (Spec.e_enter e) -> fs_parent (st c x) = Some i -> fs_type (st c x) = FInitial -> In ti (fs_trans (st c x)) ->
+     (In ti (snd r) <-> In i (Spec.e_default e) /\ fs_completion (st c i) = [x])) /\
+  (forall H ti, histS c H = true -> In ti (fs_trans (st c H)) ->
+     (In ti (snd r) <-> In H (sel_targets c sel) /\ Spec.hv_get h H = None /\ exists rest, fs_trans (st c H) = ti :: rest)) /\
+  (forall p ti, In (p, ti) (Spec.e_histcontent e) <->
+     exists tj H, In tj sel /\ In H (ft_targets (tr c tj)) /\ histS c H = true /\ Spec.hv_get h H = None /\
+                  fs_parent (st c H) = Some p /\ exists rest, fs_trans (st c H) = ti :: rest) /\
+  (forall i H, In i (Spec.e_default e) -> In H (sel_targets c sel) -> histS c H = true -> fs_parent (st c H) <> Some i).
+Proof. exact entry_set_conforms_hist_main. Qed.
+Print Assumptions entry_set_conforms_history_partial.
+
+(* (3) One microstep.  microstep_conforms_initial for wf_histb documents: exit set, recording of history, exit handlers,
+   transition content, entry set, entry in document order with -- per entered state -- data initialisation, onentry
+   handlers, THEN the content of the state's <initial> transition (if entered by default) resp. of the default transition
+   of a targeted history child without a value (Appendix D: defaultHistoryContent[s.id] after the onentry of the history's
+   PARENT s; engine: the transitions of the pseudo-state children of s that are in the transition set -- the same place),
+   done events.  From corresponding states with related histories the two microsteps end in corresponding states with
+   related histories, the same store, queues and trace (Appendix D appends its TCfg token).  sel: duplicate-free
+   (what SELECT_TRANSITIONS returns: ascending). *)
+Theorem microstep_conforms_history_partial : forall late t0 sel l s x,
+  let c := flatten late t0 in
+  micro_static_hb c = true -> legal_configb c (l_cfg l) = true ->
+  HistOK c (l_hist l) -> HistDown c (l_hist l) -> hv_rel c (l_hist l) (Spec.s_hv s) -> corr c l s ->
+  NoDup sel -> (forall ti, In ti sel -> In (ft_source (tr c ti)) (l_cfg l)) ->
+  pairwise_ok lg_fixed c sel ->
+  (forall ti, In ti sel -> ft_history (tr c ti) || ft_initial (tr c ti) = false) ->
+  let r := microstep lg_fixed ex_fixed c l (emit TMsB x) (sel_targets c sel) (sel_exitset c (l_cfg l) sel) sel false in
+  let q := Spec.spec_microstep c sel s x in
+  corr c (fst r) (fst q) /\ snd q = emit (Spec.spec_cfg_tok c (fst q)) (snd r) /\
+  HistOK c (l_hist (fst r)) /\ HistDown c (l_hist (fst r)) /\ hv_rel c (l_hist (fst r)) (Spec.s_hv (fst q)).
+Proof. exact microstep_conforms_hist_main. Qed.
+Print Assumptions microstep_conforms_history_partial.
+
+Theorem microstep_selected_conforms_history_partial : forall late t0 l s ev x0 x,
+  let c := flatten late t0 in
+  micro_static_hb c = true -> legal_configb c (l_cfg l) = true ->
+  HistOK c (l_hist l) -> HistDown c (l_hist l) -> hv_rel c (l_hist l) (Spec.s_hv s) -> corr c l s ->
+  let sel := fst (select_loop lg_fixed c (l_cfg l) ev (cfg_postfix c (l_cfg l)) None [] x0) in
+  let r := microstep lg_fixed ex_fixed c l (emit TMsB x) (sel_targets c sel) (sel_exitset c (l_cfg l) sel) sel false in
+  let q := Spec.spec_microstep c sel s x in
+  corr c (fst r) (fst q) /\ snd q = emit (Spec.spec_cfg_tok c (fst q)) (snd r) /\
+  HistOK c (l_hist (fst r)) /\ HistDown c (l_hist (fst r)) /\ hv_rel c (l_hist (fst r)) (Spec.s_hv (fst q)).
+Proof. exact microstep_selected_conforms_hist_main. Qed.
+Print Assumptions microstep_selected_conforms_history_partial.
+
+(* Transition selection with <history> targets (Appendix D's removeConflictingTransitions uses exit sets, hence the
+   transition domains under the current history value), and selection + microstep *)
+Theorem selection_conforms_history_partial : forall late t0 cfg' ev x hist h,
+  let c := flatten late t0 in let cfg := 0 :: cfg' in
+  micro_static_hb c = true -> root_unmentionedb c = true ->
+  legal_configb c cfg = true -> ascb cfg = true ->
+  HistOK c hist -> HistDown c hist -> hv_rel c hist h ->
+  unrelated_enabledb c cfg ev x = true -> conds_pureb c cfg x = true -> descs_okb c cfg ev = true ->
+  select_loop lg_fixed c cfg ev (cfg_postfix c cfg) None [] x = Spec.select_transitions c cfg' h ev x
+  /\ snd (select_loop lg_fixed c cfg ev (cfg_postfix c cfg) None [] x) = x.
+Proof. exact selection_conforms_spec_cfg_hist_main. Qed.
+Print Assumptions selection_conforms_history_partial.
+
+Theorem step_conforms_history_partial : forall late t0 l s ev x,
+  let c := flatten late t0 in
+  micro_static_hb c = true -> root_unmentionedb c = true ->
+  legal_configb c (l_cfg l) = true -> ascb (l_cfg l) = true ->
+  HistOK c (l_hist l) -> HistDown c (l_hist l) -> hv_rel c (l_hist l) (Spec.s_hv s) -> corr c l s ->
+  unrelated_enabledb c (l_cfg l) ev x = true -> conds_pureb c (l_cfg l) x = true -> descs_okb c (l_cfg l) ev = true ->
+  let r := select_and_step lg_fixed ex_fixed c l x ev in
+  let en := fst (Spec.select_transitions c (Spec.s_cfg s) (Spec.s_hv s) ev x) in
+  snd (Spec.select_transitions c (Spec.s_cfg s) (Spec.s_hv s) ev x) = x /\
+  match en with
+  | [] => l_cfg (fst (fst r)) = l_cfg l /\ snd (fst r) = x
+  | _ => let q := Spec.spec_microstep c en s x in
+         corr c (fst (fst r)) (fst q) /\ snd q = emit (Spec.spec_cfg_tok c (fst q)) (snd (fst r)) /\
+         HistOK c (l_hist (fst (fst r))) /\ HistDown c (l_hist (fst (fst r))) /\ hv_rel c (l_hist (fst (fst r))) (Spec.s_hv (fst q))
+  end.
+Proof. exact step_conforms_hist_main. Qed.
+Print Assumptions step_conforms_history_partial.
+
+(* (4) The initial microstep (it touches no <history> element: the completion of <scxml> and of every compound state
+   consists of proper states or is the <initial> child), one call of step() with all its branches, and whole runs: the
+   statements of initial_step_conforms_initial, large_step_conforms_initial, run_conforms_initial, run_conforms_prefix_initial
+   with static_hb for static_ib.  RunConformHistStep.rsimHH is rsimH with related histories (the pristine interpreter has
+   an empty history). *)
+Theorem initial_step_conforms_history_partial : forall late t0 l xl xs,
+  let c := flatten late t0 in let r := fs_sid (st c 0) in
+  static_hb c = true ->
+  is_pristine l = true -> l_cfg l = [] -> l_initd l = [] -> HistOK c (l_hist l) -> same_dyn xl xs ->
+  let rl := large_step lg_fixed ex_fixed c l xl in
+  let q := spec_init c xs in
+  snd rl = RC_MICROSTEPPED /\
+  corr c (fst (fst rl)) (fst q) /\ Spec.s_hv (fst q) = [] /\ same_dyn (snd (fst rl)) (snd q) /\
+  legal_configb c (l_cfg (fst (fst rl))) = true /\
+  exists d dg,
+    x_out (snd (fst rl)) = TMsE :: d ++ TEe r :: TEb r :: TMsB :: x_out xl /\
+    x_out (snd q) = Spec.spec_cfg_tok c (fst q) :: TMsE :: d ++ TDiag dg :: TMsB :: x_out xs.
+Proof. exact initial_step_conforms_hist_main. Qed.
+Print Assumptions initial_step_conforms_history_partial.
+
+Theorem large_step_conforms_history_partial : forall late t0,
+  let c := flatten late t0 in
+  static_hb c = true -> forall l xl s xs,
+  rsimHH c l xl s xs -> step_guardb c l xl = true ->
+  let rl := large_step lg_fixed ex_fixed c l xl in
+  let q := spec_step c l s xs in
+  rsimHH c (fst (fst rl)) (loop_toks c (fst (fst rl)) (snd rl) (snd (fst rl))) (fst q) (snd q).
+Proof. exact large_step_conforms_hist_lemma. Qed.
+Print Assumptions large_step_conforms_history_partial.
+
+(* Whole runs of documents with <history>: if the static conditions hold, the run guard holds and the run is complete
+   within the bound, the projected trace of Interp.run_large is the projected trace of Spec.run_spec (Appendix D: same
+   events, exits, transition contents -- those of default history transitions included --, entries, executed content, same
+   configuration after every microstep, same completion) and the final datamodel stores are equal, for every spec fuel
+   >= the number of calls of step(). *)
+Theorem run_conforms_history_partial : forall late t0,
+  let c := flatten late t0 in let r := fs_sid (st c 0) in
+  static_hb c = true -> forall evs fuel, run_guardb c evs fuel = true -> run_completeb c evs fuel = true ->
+  forall fuel', fuel <= fuel' ->
+    spec_view r (fst (run_large lg_fixed ex_fixed late t0 evs fuel)) = spec_view r (fst (run_spec late t0 evs fuel')) /\
+    snd (run_large lg_fixed ex_fixed late t0 evs fuel) = snd (run_spec late t0 evs fuel').
+Proof. exact run_conforms_hist_lemma. Qed.
+Print Assumptions run_conforms_history_partial.
+
+Theorem run_conforms_prefix_history_partial : forall late t0,
+  let c := flatten late t0 in let r := fs_sid (st c 0) in
+  static_hb c = true -> forall evs fuel, run_guardb c evs (S fuel) = true ->
+  exists k, k <= fuel /\
+    let res := run_loop c lstate (large_step lg_fixed ex_fixed c) l_cfg (S fuel) l_pristine x_init evs in
+    let sp := Spec.spec_loop c k (fst (spec_init c x_init)) (snd (spec_init c x_init)) evs in
+    let xs' := if l_fin (fst res) then Spec.exit_interpreter c (fst sp) (snd sp) else snd sp in
+    corr c (fst res) (fst sp) /\ x_store (snd res) = x_store xs' /\
+    spec_view r (rev (x_out (snd res))) = spec_view r (rev (x_out xs')).
+Proof. exact run_conforms_prefix_hist_lemma. Qed.
+Print Assumptions run_conforms_prefix_history_partial.
+
+(* (5) the hypotheses are satisfiable by a whole run of a document with a deep and a shallow history in different
+   sub-trees (RunConformHistWitness.hw_tree; outside wf_initb): default transitions with content (log, assign), seven
+   events: enter through the deep history without a value (default transition, its content after the onentry of the
+   history's parent), move inside, leave (the deep history records) and enter through the shallow history without a value,
+   move, go back through the deep history WITH a value (restored, no default content; the shallow history records), back
+   through the shallow history with a value, top-level final.  Eight microsteps; the configurations are listed. *)
+Theorem run_conforms_history_hypotheses_satisfiable :
+  let c := flatten false hw_tree in
+  static_hb c = true /\ wf_initb c = false /\ run_guardb c hw_evs 60 = true /\ run_completeb c hw_evs 60 = true /\
+  count_ms (fst (run_large lg_fixed ex_fixed false hw_tree hw_evs 60)) = 8 /\
+  snd (run_large lg_fixed ex_fixed false hw_tree hw_evs 60) = [(1%N, 1%Z)] /\
+  filter (fun t => match t with TCfg _ => true | _ => false end) (spec_view 0 (fst (run_large lg_fixed ex_fixed false hw_tree hw_evs 60))) =
+    [TCfg [11%N]; TCfg [1%N; 3%N; 5%N]; TCfg [1%N; 3%N; 4%N]; TCfg [7%N; 10%N]; TCfg [7%N; 9%N]; TCfg [1%N; 3%N; 4%N]; TCfg [7%N; 9%N]; TCfg [12%N]].
+Proof. exact run_conforms_history_nonvacuous. Qed.
+Print Assumptions run_conforms_history_hypotheses_satisfiable.
+
+(* (6) witnesses (by computation; static_h_parts_of lists wf_histb, root_compoundb, par_nonemptyb, targets_antichainb, done_okb,
+   root_silentb, (cpl_okb, cpl_antib, targets_noinitb), (hist_target_localb, hist_targets_nodupb, leaf_okb),
+   (root_unmentionedb, chart_named, root_onexit_emptyb), root_plainb; all other conditions, the run guard and completeness hold) *)
+(* C01-K5 at run level: <state id=s1><history id=s2 type=deep><transition target=s4/></history>
+                         <state id=s3><state id=s4><transition event=e target=s2/></state><state id=s5/></state></state>, event e.
+   The engines exit and re-enter s4 and s3 (domain s1, from the <history> element).  Appendix D's getTransitionDomain uses the
+   effective target s4: only s4 is exited, and computeEntrySet then adds the ancestor s3 of the target -- an ACTIVE state
+   is entered again.  The corner is in the Recommendation's algorithm; the engines' run is the sensible one. *)
+Theorem run_hist_target_enclosing_refuted :
+  exists late t evs fuel, let c := flatten late t in
+    static_h_parts_of c = (true, true, true, true, true, true, (true, true, true), (false, true, true), (true, true, true), true) /\
+    run_guardb c evs fuel = true /\ run_completeb c evs fuel = true /\ views_differ late t evs fuel.
+Proof. exact RunConformHistWitness.run_hist_target_enclosing_refuted. Qed.
+Print Assumptions run_hist_target_enclosing_refuted.
+
+(* target="s3 s3", s3 a history without a value and with default content: Spec.v keeps defaultHistoryContent as a LIST of
+   pairs and runs every pair of the entered state (twice); the engine runs the content once; Appendix D assigns into a
+   TABLE (once).  Here the engine follows Appendix D and the transliteration Spec.v does not. *)
+Theorem run_hist_target_twice_refuted :
+  exists late t evs fuel, let c := flatten late t in
+    static_h_parts_of c = (true, true, true, true, true, true, (true, true, true), (true, false, true), (true, true, true), true) /\
+    run_guardb c evs fuel = true /\ run_completeb c evs fuel = true /\ views_differ late t evs fuel.
+Proof. exact RunConformHistWitness.run_hist_target_twice_refuted. Qed.
+Print Assumptions run_hist_target_twice_refuted.
+
+(* a transition whose target is an <initial> element *)
+Theorem run_target_initial_element_history_refuted :
+  exists late t evs fuel, let c := flatten late t in
+    static_h_parts_of c = (true, true, true, true, true, true, (true, true, false), (true, true, true), (true, true, true), true) /\
+    run_guardb c evs fuel = true /\ run_completeb c evs fuel = true /\ views_differ late t evs fuel.
+Proof. exact RunConformHistWitness.run_target_initial_element_hist_refuted. Qed.
+Print Assumptions run_target_initial_element_history_refuted.
+
+(* leaf_okb is not known to be necessary: a <final> with a child state below the parent of a deep history, left and
+   re-entered through the history; the document violates leaf_okb only, and the two runs agree *)
+Theorem run_final_with_child_agrees :
+  let c := flatten false hw_final_child in let evs := [[101%N]; [102%N]; [103%N]] in
+  static_h_parts_of c = (true, true, true, true, true, true, (true, true, true), (true, true, false), (true, true, true), true) /\
+  run_guardb c evs 30 = true /\ run_completeb c evs 30 = true /\
+  spec_view 0 (fst (run_large lg_fixed ex_fixed false hw_final_child evs 30)) = spec_view 0 (fst (run_spec false hw_final_child evs 30)).
+Proof. exact RunConformHistWitness.run_final_with_child_agrees. Qed.
+Print Assumptions run_final_with_child_agrees.
